@@ -133,12 +133,20 @@ func newSorts() *Sorts {
 const preamble = `(declare-sort Str 0)
 (declare-datatypes ((Slice 0)) (((mk-slice (s-arr Int) (s-off Int) (s-len Int) (s-cap Int)))))
 (declare-datatypes ((Iface 0)) (((mk-iface (i-tag Int) (i-val Int)))))
-(declare-fun slen (Str) Int)
+(define-fun tdiv ((x Int) (y Int)) Int (ite (>= x 0) (ite (> y 0) (div x y) (- (div x (- y)))) (ite (> y 0) (- (div (- x) y)) (div (- x) (- y)))))
+(define-fun tmod ((x Int) (y Int)) Int (- x (* y (tdiv x y))))
+(define-fun wrapu ((x Int) (m Int)) Int (mod x m))
+(define-fun wraps ((x Int) (h Int)) Int (- (mod (+ x h) (* 2 h)) h))
+(declare-const str_empty Str)
+`
+
+// strAxioms is included only when the VC mentions a string operation, so that
+// purely arithmetic VCs stay quantifier-free (and failing ones yield models).
+const strAxioms = `(declare-fun slen (Str) Int)
 (declare-fun sbyte (Str Int) Int)
 (declare-fun scat (Str Str) Str)
 (declare-fun ssub (Str Int Int) Str)
 (declare-fun strlt (Str Str) Bool)
-(declare-const str_empty Str)
 (assert (= (slen str_empty) 0))
 (assert (forall ((s Str)) (! (>= (slen s) 0) :pattern ((slen s)))))
 (assert (forall ((s Str)) (! (=> (= (slen s) 0) (= s str_empty)) :pattern ((slen s)))))
@@ -154,10 +162,6 @@ const preamble = `(declare-sort Str 0)
 (assert (forall ((a Str) (b Str)) (! (not (and (strlt a b) (strlt b a))) :pattern ((strlt a b)))))
 (assert (forall ((a Str) (b Str) (c Str)) (! (=> (and (strlt a b) (strlt b c)) (strlt a c)) :pattern ((strlt a b) (strlt b c)))))
 (assert (forall ((a Str)) (! (or (= a str_empty) (strlt str_empty a)) :pattern ((strlt str_empty a)))))
-(define-fun tdiv ((x Int) (y Int)) Int (ite (>= x 0) (ite (> y 0) (div x y) (- (div x (- y)))) (ite (> y 0) (- (div (- x) y)) (div (- x) (- y)))))
-(define-fun tmod ((x Int) (y Int)) Int (- x (* y (tdiv x y))))
-(define-fun wrapu ((x Int) (m Int)) Int (mod x m))
-(define-fun wraps ((x Int) (h Int)) Int (- (mod (+ x h) (* 2 h)) h))
 `
 
 // lenBound is the assumed upper bound on every slice, string and map length
@@ -387,13 +391,16 @@ func (e *Engine) strLit(s string) string {
 	return n
 }
 
-func (e *Engine) strLitDecls() []string {
+func (e *Engine) strLitDecls(axioms bool) []string {
 	var out []string
 	var names []string
 	for _, s := range e.strOrder {
 		n := e.strLits[s]
 		names = append(names, n)
 		out = append(out, fmt.Sprintf("(declare-const %s Str) ; %q", n, s))
+		if !axioms {
+			continue
+		}
 		out = append(out, fmt.Sprintf("(assert (= (slen %s) %d))", n, len(s)))
 		if len(s) <= 24 {
 			for i := 0; i < len(s); i++ {
@@ -404,6 +411,9 @@ func (e *Engine) strLitDecls() []string {
 	if len(names) > 0 {
 		names = append(names, "str_empty")
 		out = append(out, "(assert (distinct "+strings.Join(names, " ")+"))")
+		if !axioms {
+			return out
+		}
 		// total order facts between literals
 		sorted := append([]string{}, e.strOrder...)
 		sort.Strings(sorted)
